@@ -319,3 +319,25 @@ CHECKS["C14"] = dict(
         dict(name="random", test="TestRandomCommands", kind="rapid", checks={"quick": 60, "thorough": 4000}, shards=16, timeout={"quick": 900, "thorough": 3400}, shrinktime="60s", gomaxprocs=4, crash_is_violation=True),
     ],
 )
+
+CHECKS["C18"] = dict(
+    pkg="c18", level="exploration",
+    engine="verif hooks over the cursor code + sim with scripted per-node SCAN cursor chains",
+    rule=("part cursor: rapid-generated (node index 0..65535, node cursor < 2^48 biased to edges 0, 1, 2^32, 2^47, 2^48-1, next cursor, "
+          "MATCH/COUNT arguments, keys): parse(gen(i,c)) == (i,c); for i < 32768 the decimal text sent through the real request parser "
+          "and conversion addresses node i with cursor text c, passes MATCH/COUNT and the keys through unchanged and returns gen(i,next) "
+          "or gen(i+1,0) when the node is done. part badcursor: cursors >= 2^63, negative, non-numeric, over-long: never a panic. part "
+          "iteration: 1..6 simulated nodes, each with a scripted chain of 1..5 pages (distinct arbitrary cursors < 2^48, last one 0) and "
+          "a generated partition of its keys (pages may be empty, keys may repeat), optional MATCH/COUNT; the client loops from cursor 0 "
+          "through a real proxy. Oracle: cursor 0 is reached within pages+nodes+1 calls; returned keys == stored keys as sets; every "
+          "node's log shows exactly its chain 0,c1,... once and in order with MATCH/COUNT unchanged; a cursor past the last node yields "
+          "[\"0\", []] twice identically. Non-trivial: node index > 0 with a node cursor >= 2^32 (cursor); >= 2 nodes and a node with >= 2 "
+          "pages (iteration). Distinct by canonical JSON."),
+    assumptions=["client cursors are read as int64, so node indices >= 32768 cannot be fed back as decimal text (far beyond any real node count); they are only checked at the gen/parse level",
+                 "SCAN iterates the service's hosts sorted by address; the seed hosts are the masters"],
+    parts=[
+        dict(name="cursor", test="TestCursor", kind="rapid", checks={"quick": 20000, "thorough": 600000}, shards=8, timeout={"quick": 600, "thorough": 3000}),
+        dict(name="badcursor", test="TestBadCursor", kind="rapid", checks={"quick": 5000, "thorough": 100000}, shards=2, timeout={"quick": 600, "thorough": 3000}),
+        dict(name="iteration", test="TestIteration", kind="rapid", checks={"quick": 100, "thorough": 3000}, shards=16, timeout={"quick": 900, "thorough": 3400}, gomaxprocs=4, crash_is_violation=True),
+    ],
+)
